@@ -91,7 +91,54 @@ fn gen_spans(r: &mut Rng, n_vars: usize) -> Vec<(usize, usize, usize)> {
     spans
 }
 
+/// Cyclic packed evidence: a ring of 1..3 variables, each a packed encoding
+/// whose first span is the next variable of the ring, plus a sized word on
+/// one of them (pushed down into the span every round), plus noise. This is
+/// the family that exercises the unifier's stagnation check and round limit.
+pub fn gen_packed_cycle(r: &mut Rng) -> EvidenceSet {
+    let ring = 1 + r.usize_below(3);
+    let extra = r.usize_below(4);
+    let n_vars = ring + extra;
+    let mut judgements = Vec::new();
+    let width = *r.pick(&[8usize, 32, 64, 160, 192]);
+    for i in 0..ring {
+        let next = (i + 1) % ring;
+        let offset = if r.chance(3, 4) { 0 } else { 1 + r.usize_below(16) };
+        let mut spans = vec![(next, offset, width)];
+        if r.chance(1, 3) && offset + width + 8 <= 256 {
+            spans.push((r.usize_below(n_vars), offset + width, 8 * (1 + r.usize_below(((256 - offset - width) / 8).max(1)))));
+        }
+        judgements.push((
+            i,
+            Ev::Packed {
+                spans,
+                is_struct: r.chance(1, 8),
+            },
+        ));
+    }
+    let words = 1 + r.usize_below(2);
+    for _ in 0..words {
+        let usage = *r.pick(&USAGES);
+        let w = if r.chance(3, 4) { Some(width) } else { *r.pick(&WIDTHS) };
+        judgements.push((r.usize_below(ring), Ev::word(w, usage)));
+    }
+    for _ in 0..extra {
+        let v = r.usize_below(n_vars);
+        let e = match r.below(3) {
+            0 => Ev::Equal { other: r.usize_below(n_vars) },
+            1 => gen_word(r),
+            _ => Ev::DynArray { element: r.usize_below(n_vars) },
+        };
+        judgements.push((v, e));
+    }
+    r.shuffle(&mut judgements);
+    EvidenceSet { n_vars, judgements }
+}
+
 pub fn gen_evidence(r: &mut Rng) -> EvidenceSet {
+    if r.chance(1, 8) {
+        return gen_packed_cycle(r);
+    }
     let cap = if r.chance(1, 4) { 39 } else { 10 };
     let n_vars = 2 + r.usize_below(cap);
     let n_j = 1 + r.usize_below(3 * n_vars);
@@ -329,7 +376,7 @@ impl Check for C14Check {
         CheckInfo {
             id: "C14",
             level: "exploration",
-            rule: "case = one generated judgement set over 2..40 type variables (equalities, words of all usages x widths {?,8,32,160,192,256}, dynamic bytes, mappings, fixed arrays of 2 lengths, dynamic arrays, Any; half of the sets also packed encodings with well-formed or arbitrary overlapping/unsorted spans; cyclic references in 1 of 5 sets), unified under 6 schedules (3 natural hash keys, reverse-all, fold kind-sorted, seeded random); evaluations = unifier runs; non-trivial = the run folded at least one class with >= 2 pieces of evidence; distinct = distinct (judgement set, fold-order digest), counted with a hash set",
+            rule: "case = one generated judgement set over 2..40 type variables (equalities, words of all usages x widths {?,8,32,160,192,256}, dynamic bytes, mappings, fixed arrays of 2 lengths, dynamic arrays, Any; half of the sets also packed encodings with well-formed or arbitrary overlapping/unsorted spans; cyclic references in 1 of 5 sets; 1 of 8 sets is a ring of 1..3 packed encodings whose first span is the next variable of the ring plus a sized word, the family that reaches the unifier's stagnation check and round limit), unified under 6 schedules (3 natural hash keys, reverse-all, fold kind-sorted, seeded random); evaluations = unifier runs; non-trivial = the run folded at least one class with >= 2 pieces of evidence; distinct = distinct (judgement set, fold-order digest), counted with a hash set",
             assumptions: &[
                 "the unifier is driven through TypeCheckerState::register/infer and unification::unify, as the type checker itself does",
                 "reference model is one-directional: model-equal implies implementation-equal; additional unions are not forbidden",
@@ -370,6 +417,9 @@ impl Check for C14Check {
             }
             if o.record.unify_rounds > 3 {
                 res.probe("more_than_three_rounds");
+            }
+            if o.record.unify_rounds >= 100 {
+                res.probe("unifier_round_limit_reached");
             }
             if o.data.iter().flatten().any(|d| d.iter().any(|e| matches!(e, TE::Conflict { .. }))) {
                 res.probe("some_class_conflicted");
